@@ -13,9 +13,14 @@ CasesLag == {PCase(d, f, e) : d \in {Small, SmallHead}, f \in {F1, F2, F3, F9, F
 CasesReplayQ == {PCase(d, f, e) : d \in {A2, A3, A7, A9, A12, B4, B8, B9}, f \in {F1, F3, F6, F8, F9, F10, F11, F12, F19, F20}, e \in {"gzip", "deflate", "br", "zstd", "none"}}
                 \cup {PCase(d, f, e) : d \in {A2, B9}, f \in {F1, F12}, e \in {"GZIP", "Br"}}
                 \cup {PCase(d, F29, e) : d \in {A2, B9}, e \in {"gzip", "br", "deflate", "none", "zstd"}}
+                \* a body that hardly compresses; an html stage before a text replace; a LIST of codings (not supported: untouched)
+                \cup {PCase(A17, f, e) : f \in {F1, F12}, e \in {"gzip", "deflate", "br"}}
+                \cup {PCase(d, f, e) : d \in {A2, A3}, f \in {F36, F37}, e \in {"gzip", "deflate", "br"}}
+                \cup {PCase(d, f, e) : d \in {A2, B9}, f \in {F1, F12}, e \in {"deflate, gzip", "gzip, br", "gzip,gzip"}}
 CasesReplayT == {PCase(d, f, e) : d \in DocsWell \cup DocsMessy, f \in FiltersAll, e \in {"gzip", "deflate", "br", "zstd", "identity"}}
                 \cup {PCase(d, f, e) : d \in {A2, A7, B9}, f \in {F1, F6, F12}, e \in {"GZIP", "Br"}}
                 \cup {PCase(d, F29, e) : d \in {A2, A7, B9}, e \in {"gzip", "br", "deflate", "none", "zstd"}}
+                \cup {PCase(d, f, e) : d \in {A2, A7, B9}, f \in {F1, F6, F12, F36}, e \in {"deflate, gzip", "gzip, br", "gzip,gzip", "identity, gzip"}}
 \* the gate alone: lists that build nothing, empty lists, unsupported encodings (C04: "cannot be built ... passes through byte-for-byte")
 CasesInert == {PCase(d, f, e) : d \in {A2, A9, B4, B9, B12}, f \in {F29, F20}, e \in {"gzip", "br", "deflate", "none", "zstd", "GZIP"}}
               \cup {PCase(d, f, "zstd") : d \in {A2, B4}, f \in {F1, F6, F12}}
